@@ -188,6 +188,17 @@ def gate_tables(tier):
                 if got is not exp:
                     fail('operator', f'{name}{vals} = {got!r}, reference {exp}')
     samples.append('GateType.operator: all 19 types, n-ary at arity 2..13')
+    # 1b. what a gate type says about itself: 'the order of the operands does not matter' has to be true of its function
+    for name in refsem.ALL_TYPES:
+        gt = getattr(gate, name)
+        flag = getattr(gt, 'is_symmetric', None)
+        if flag is None or name in refsem.CONST or name in refsem.UNARY:
+            continue
+        really = all(_ref_op(name, [a, b]) is _ref_op(name, [b, a]) for a in (False, True) for b in (False, True))
+        n_checked += 1
+        if bool(flag) and not really:
+            fail('is_symmetric', f'{name} is flagged symmetric but {name}(a, b) != {name}(b, a) for some a, b')
+    samples.append('GateType.is_symmetric: no order-sensitive type is flagged symmetric')
 
     skipped = []
     # 2./3. synthesis truth-table codes
